@@ -13,6 +13,17 @@ CLAIMS = {
  "C18": ("Inductive step per BiMap operation from an arbitrary valid pre-state: (a) finite universe of 4 atoms incl. falsy 0 and '' "
          "with <=3 pairs, compared against the mathematical model; (b) maps as unbounded z3 arrays with arbitrary integer keys/values, "
          "bijection invariant instantiated at every read, post-conditions at skolem indices; plus short symbolic histories.", "§6 C18"),
+ "C06": ("Every signature / port-kind / output-count rule of the statement as one lemma per operation class: rows are lists of pairwise "
+         "distinct type atoms with symbolic lengths (0..2 quick, 0..3 thorough), port offsets symbolic over the whole row plus the order port; "
+         "Call/LoadFunction with an instantiation whose arity is independent of the polymorphic body.", "§6 C06"),
+ "C07": ("Leaf bounds are symbolic enum values, so one path covers every Copyable/Any assignment; shapes (sum forms, row counts/lengths, "
+         "from-params index lists, std containers) enumerated by the solver within the stated bounds.", "§6 C07"),
+ "C09": ("Header decoder over every input of 0..12 symbolic bytes (all truncations, all magic values, all 2^16 format/flag pairs) and header "
+         "encoder over all formats with symbolic compression level; text-encoding guard. Package round trip: see evidence (bounded pool).", "§6 C09"),
+ "C13": ("One lemma per refusal named in the statement; the offending parameter (case index, tracked index, integer wire, row contents, "
+         "parameter/argument counts, built-subset) is symbolic, the assertion is 'raises iff inconsistent' and 'nothing recorded'.", "§6 C13"),
+ "C19": ("Real to_register_bits / register_bitstrings / collate code interpreted against an in-order replay reference; integer data values "
+         "unbounded, bools symbolic; shots of <=2 (quick) / 3 (thorough) entries over a tag pool; strict flags symbolic.", "§6 C19"),
 }
 NA_PENDING = "not yet built in this session (design in DESIGN.md §6); no claim is made"
 def main():
